@@ -46,7 +46,8 @@ func Digraph(X []int, R []Relation,
 }
 
 func Union(a []int, b []int) []int {
-	c := b
+	// copy b: appending to b itself would write into an array other sets may share
+	c := append([]int(nil), b...)
 	for _, v := range a {
 		found := false
 		for _, u := range b {
